@@ -243,6 +243,8 @@ func (c *caseRun) run() {
 		pubs = append(pubs, hx.Hex(c.net.Pub(i).Bytes()))
 	}
 	o.Line(fmt.Sprintf("net %d %d %d %s", csize, vcount, len(pubs), strings.Join(pubs, " ")), "ok")
+	// initial contents of the settings storage (genesis Initialize of the natives is not modelled)
+	o.Line("init-settings "+strings.ReplaceAll(settingsObs(w, c.a.BC), ",", " "), "ok")
 	// genesis observation
 	o.Line("genesis", abstractObs(w, c.a.BC)+" | "+abstractObs(w, c.b.BC))
 
@@ -383,6 +385,13 @@ func (c *caseRun) run() {
 				panic(fmt.Errorf("no exec result on A: %v", err))
 			}
 			p.result = aerResult(&aers[0])
+			if p.kind == "kv.deploy" {
+				if w.mgmtToks == nil {
+					w.mgmtToks = map[string]bool{}
+				}
+				f := strings.Fields(p.line)
+				w.mgmtToks[f[len(f)-1]] = true
+			}
 			o.Count("op:" + p.kind)
 			o.Count("result:" + p.result)
 			line, obs := p.line, p.result
@@ -401,6 +410,12 @@ func (c *caseRun) run() {
 			}
 			if !p.model {
 				obs = "skip"
+				// the cached components take the outcome of these calls from the real result
+				if p.result == "fault" {
+					line += " =>fault"
+				} else {
+					line += " =>halt"
+				}
 			}
 			o.Line(line, obs)
 			c.afterOp(p, &aers[0])
